@@ -117,7 +117,7 @@ def _check_ir(ir, soft):
         elif st != qt:
             return ("roundtrip-typ", "%s: type %r came back as %r" % (n, st, qt))
         sd = p.get("default", domain.ABSENT)
-        sd = domain.ABSENT if sd == domain.NONE else sd
+        sd = domain.ABSENT if sd in (domain.NONE, None) else sd  # a None default is not emitted (it is what the type says when Optional, and nothing otherwise)
         qd = q.get("default", domain.ABSENT)
         qd = domain.ABSENT if qd in (domain.NONE, None) else qd
         if (sd is domain.ABSENT) != (qd is domain.ABSENT) or (sd is not domain.ABSENT and (type(sd), sd) != (type(qd), qd)):
@@ -163,9 +163,12 @@ def required_replay(_name):
         return literal_replay()
 
     shapes = [("b_req", "int"), ("a_opt", "Optional[int]"), ("z_req", "str"), ("c_req", "bool"), ("y_opt", "Optional[str]")]
-    for n in (1, 2, 3, 5):
+    # what else an entry may carry must not matter for `required`: a default (also None on a non-Optional type, and a real
+    # one on an Optional type), no description
+    extras = {"b_req": {"default": domain.NONE}, "z_req": {"default": None}, "c_req": {"default": True}, "a_opt": {"default": 3}, "y_opt": {"default": domain.NONE}}
+    for n, with_extras in ((1, False), (2, False), (3, False), (5, False), (1, True), (2, True), (5, True)):
         for combo in itertools.permutations(shapes, n):
-            ir = {"name": "Conf", "doc": "Summary.", "params": OrderedDict((k, {"typ": t, "doc": "the " + k}) for k, t in combo), "returns": None}
+            ir = {"name": "Conf", "doc": "Summary.", "params": OrderedDict((k, dict({"typ": t, "doc": "the " + k}, **(extras[k] if with_extras else {}))) for k, t in combo), "returns": None}
             want = [k for k, t in combo if not t.startswith("Optional[")]
             sch = cdd.json_schema.emit.json_schema(copy.deepcopy(ir))
             got = sch.get("required")
@@ -198,6 +201,10 @@ def bounded(tier, seed):
                 if dflt is not domain.ABSENT:
                     p_["default"] = dflt
                 cases.append({"name": "Conf", "doc": "Summary of it.", "params": OrderedDict(((nm, p_), ("alpha", OrderedDict((("typ", "int"), ("doc", "the alpha")))))), "returns": None})
+    # a None default on a non-Optional type (`timeout: float = None`): the type decides `required`, not the default
+    for t in ("int", "float", "str", "bool", "Literal['x', 'y']"):
+        for dflt in (domain.NONE, None):
+            cases.append({"name": "Conf", "doc": "Summary of it.", "params": OrderedDict((("alpha", OrderedDict((("typ", t), ("doc", "the alpha"), ("default", dflt)))), ("beta", OrderedDict((("typ", "Optional[int]"), ("doc", "the beta")))))), "returns": None})
     res = common.pmap(check_ir, cases)
     fails = {}
     for ir, rs in zip(cases, res):
